@@ -14,6 +14,7 @@ open Sdc Sdc.Discovery Sdc.Url Sdc.Hex
   `hello <app> <svc>` | `pm <app> <n> <svc>…` | `rm <app> <svc>` | `bye <epr>` | `probe <types> <scopes>` |
   `resolve <epr>` | `unknown`                        -> `ok [P:<epr>:<mv> | R:<epr>:<mv>]…` | `err <class>`
   `dg <mid> <message op …>`                          -> `skip` | answer of the message op
+  `out <id>`   (an own message with this id was queued: `add_outbound_message`)        -> `ok`
   `dump` | `dumplocal`                               -> `<epr>|<mv>|<inst>|<types>|<scopes>|<xaddrs>` …            -/
 
 structure DState where
@@ -164,6 +165,7 @@ def stepLine (d : DState) (line : String) : DState × String :=
       | some st => ({ d with node := { d.node with st := st } }, "ok")
       | none => (d, "err KeyError")
     | none => (d, "bad-op")
+  | ["out", id] => ({ d with node := registerOwn d.maxlen d.node id }, "ok")
   | ["dump"] => (d, " ".intercalate (d.node.st.remote.values.map showSvc))
   | ["dumplocal"] => (d, " ".intercalate (d.node.st.local_.values.map showSvc))
   | "dg" :: mid :: rest => match parseMsg rest with
